@@ -3529,12 +3529,18 @@ class C14(Prop):
                     if x is not None:
                         outs.append(x)
             text += ''.join('.%s()' % nm for nm in ([agg] if agg else []) + names)
+            pad = None
+            if r.random() < 0.15:
+                # C18_outer_spaces_same_tree_with_functions: blanks before and after the whole path (Coq's fpadded_fun_path)
+                pad = (r.randint(0, 3), r.randint(0, 3))
+                text = ' ' * pad[0] + text + ' ' * pad[1]
             regs = sorted(set(names) | ({r.choice(gens.FILTER_FUNCS)} if r.random() < 0.3 else set()))
             aggs_ = sorted(({agg} if agg else set()) | ({r.choice(gens.AGG_FUNCS)} if r.random() < 0.2 else set()))
             c = Case('ft%d' % i, text.encode('utf-8'), [doc], regs, aggs_, r.random() < 0.15,
                      meta={'family': 'coq-chain-fun-path', 'nsteps': len(spec), 'fs': ([agg] if agg else []) + names})
             c.keyc = spec
             c.keyf = [[ord(ch) for ch in nm] for nm in ([agg] if agg else []) + names]
+            c.pad = pad
             want[c.id] = (calls, outs, bool(cur))
             cases.append(c)
         go, mo = both_sides(cases)
